@@ -98,15 +98,31 @@ func NewClusterNode(root string, me NodeSpec, servers []string, o ClusterOpts, s
 		// only then does a later Close release the port synchronously (a node closed before its
 		// listener exists binds and releases the port some time after Close returned, and a node
 		// restarted on that address meanwhile dies in log.Fatal with "address already in use")
+		// (an answered request, not just a successful dial: the port accepts connections as soon as it is
+		// bound, a moment before the server has registered the listener it would close on shutdown)
 		deadline := time.Now().Add(30 * time.Second)
 		for {
-			conn, err := net.Dial("tcp", me.Name())
+			err := func() error {
+				conn, err := net.DialTimeout("tcp", me.Name(), time.Second)
+				if err != nil {
+					return err
+				}
+				defer conn.Close()
+				conn.SetDeadline(time.Now().Add(2 * time.Second))
+				if _, err := conn.Write([]byte("GET /verif-ready HTTP/1.0\r\n\r\n")); err != nil {
+					return err
+				}
+				buf := make([]byte, 16)
+				if _, err := conn.Read(buf); err != nil {
+					return err
+				}
+				return nil
+			}()
 			if err == nil {
-				conn.Close()
 				break
 			}
 			if time.Now().After(deadline) {
-				return nil, fmt.Errorf("node %s does not accept connections: %v", me.Name(), err)
+				return nil, fmt.Errorf("node %s does not answer: %v", me.Name(), err)
 			}
 			time.Sleep(200 * time.Microsecond)
 		}
@@ -167,6 +183,20 @@ func StopClusterNode(c *cluster.ClusterNode, me NodeSpec) error {
 	serverConnMu.Unlock()
 	for _, cn := range conns {
 		cn.Close()
+	}
+	// the address must be free again before a node is restarted on it (the next node dies in log.Fatal
+	// otherwise): wait until it can be bound
+	deadline := time.Now().Add(10 * time.Second)
+	for {
+		l, lerr := net.Listen("tcp", me.Name())
+		if lerr == nil {
+			l.Close()
+			break
+		}
+		if time.Now().After(deadline) {
+			return fmt.Errorf("address %s is still in use after the node was closed: %v", me.Name(), lerr)
+		}
+		time.Sleep(time.Millisecond)
 	}
 	return err
 }
